@@ -387,6 +387,43 @@ def run_case(case, rec, mon=None):
                 rec.violation({"what": "OctaveScaling(low_hz=%r) rejected: %r" % (low, e), "check": "octave_accept", "arg": repr(low), "case": case})
         rec.nt(("octave_reject", tuple(case["bad"])))
         rec.nt(("octave_accept", tuple(case["good"])))
+        # the same refusals in an interpreter started with -O (assert statements and __debug__ blocks are gone there; a documented
+        # ValueError is not an assertion)
+        import subprocess
+        import sys
+
+        code = ("import sys\nfrom pydrobert.speech.scales import OctaveScaling\nbad = []\n"
+                "for low in (0, 0.0, -0.0, -1, -1e-300, -20.0, -1e9):\n"
+                "    try:\n        OctaveScaling(low)\n        bad.append(repr(low) + ' accepted')\n"
+                "    except ValueError:\n        pass\n    except Exception as e:\n        bad.append(repr(low) + ' raised ' + type(e).__name__)\n"
+                "assert False, 'asserts are on'\nprint('OPT', sys.flags.optimize, ';'.join(bad))\n")
+        for flag in ("-O", "-OO"):
+            try:
+                r = subprocess.run([sys.executable, flag, "-c", code], capture_output=True, text=True, timeout=120)
+            except Exception as e:
+                rec.note("python %s not runnable: %r" % (flag, e))
+                continue
+            line = next((l for l in r.stdout.splitlines() if l.startswith("OPT ")), None)
+            if line is None:
+                rec.note("python %s gave no verdict: %s" % (flag, (r.stderr or "")[-200:]))
+                continue
+            rec.ev()
+            rec.count("octave_rejections_tried_under_python_dash_O")
+            what = line.split(" ", 2)[2] if len(line.split(" ", 2)) > 2 else ""
+            if what:
+                rec.violation({"what": "under python %s: OctaveScaling %s (documented: ValueError)" % (flag, what), "check": "octave_reject", "arg": flag, "case": case})
+        # many octave scales, one after the other, each dropped before the next is made (object ids are reused): each is its own
+        import gc
+
+        for k in range(200):
+            low = float(10 ** (-2 + 5 * ((k * 37) % 200) / 200.0))
+            sc = OctaveScaling(low)
+            sc.hertz_to_scale(low)          # 0 octaves above low_hz (judged by the monitor)
+            sc.scale_to_hertz(sc.hertz_to_scale(3.0 * low))
+            del sc
+            if k % 16 == 0:
+                gc.collect()
+        rec.count("octave_scales_made_and_dropped_in_sequence", 200)
     elif kind == "banks":
         # organic events: filter-bank constructors call the scale methods themselves
         from pydrobert.speech import filters as F
